@@ -25,12 +25,13 @@ theorem in_data_of_pos {c : Cfg} {st : Store} {incs decs : HostId → Nat} (h : 
 /-- `InvBut` when only the count of object `o` (which is not at zero afterwards … or was not
     before) and the ghosts change -/
 theorem but_cells {c : Cfg} {s : Sys} {t : Tid} {hold : Bool} {P : Ino → ObjId → Prop}
-    (h : InvBut c s t hold P) (o : ObjId) (v : Nat) (incs' decs' : HostId → Nat)
+    {incs0 : HostId → Nat}
+    (h : InvBut c s t hold P incs0) (o : ObjId) (v : Nat) (incs' decs' : HostId → Nat)
     (hs : SInv c { s.store with cells := upd s.store.cells o v } incs' decs')
     (hpos : ∀ i, s.store.data i = some o → v = 0 → P i o)
     (hF3 : ∀ t' i n, t' ≠ t → (s.threads t').pc = .F3 i n o → v = 0) :
-    InvBut c { s with store := { s.store with cells := upd s.store.cells o v }, incs := incs', decs := decs' }
-      t hold P := by
+    InvBut c { s with store := { s.store with cells := upd s.store.cells o v }, decs := decs' }
+      t hold P incs' := by
   constructor
   · exact hs
   · exact h.lockA
@@ -55,7 +56,8 @@ theorem but_cells {c : Cfg} {s : Sys} {t : Tid} {hold : Bool} {P : Ino → ObjId
   · exact h.resOk
 
 theorem but_mono {c : Cfg} {s : Sys} {t : Tid} {hold : Bool} {P Q : Ino → ObjId → Prop}
-    (h : InvBut c s t hold P) (hPQ : ∀ i o, P i o → Q i o) : InvBut c s t hold Q := by
+    {incs' : HostId → Nat}
+    (h : InvBut c s t hold P incs') (hPQ : ∀ i o, P i o → Q i o) : InvBut c s t hold Q incs' := by
   constructor
   · exact h.sinv
   · exact h.lockA
@@ -73,7 +75,7 @@ theorem but_mono {c : Cfg} {s : Sys} {t : Tid} {hold : Bool} {P Q : Ino → ObjI
 
 /-- `InvBut` for a thread that is outside the critical section -/
 theorem but_plain {c : Cfg} {s : Sys} (h : Inv c s) {t : Tid} (hh : holds (s.threads t).pc = false) :
-    InvBut c s t false (fun _ _ => False) := by
+    InvBut c s t false (fun _ _ => False) s.incs := by
   have := but_of_inv h t
   rw [hh] at this
   apply but_mono this
@@ -84,13 +86,11 @@ theorem but_plain {c : Cfg} {s : Sys} (h : Inv c s) {t : Tid} (hh : holds (s.thr
 theorem step_inc {c : Cfg} {s : Sys} (h : Inv c s) {t : Tid} (hh : holds (s.threads t).pc = false)
     {i : Ino} {o : ObjId} (hd : s.store.data i = some o)
     (hno3 : ∀ t' i n, (s.threads t').pc ≠ .F3 i n o) :
-    Inv c (finish { s with store := { s.store with cells := upd s.store.cells o (s.store.cells o + 1) },
-                           incs := upd s.incs (s.store.objHost o) (s.incs (s.store.objHost o) + 1) }
+    Inv c (finish { s with store := { s.store with cells := upd s.store.cells o (s.store.cells o + 1) } }
       t (some (s.store.objHost o, s.store.objIno o))) := by
   apply inv_finish
-  · apply but_cells (but_plain h hh) o (s.store.cells o + 1) _ _ (sinv_inc h.sinv hd)
-    · intro _ _ hv; omega
-    · intro t' i n _ hp; exact absurd hp (hno3 t' i n)
+  · exact but_cells (but_plain h hh) o (s.store.cells o + 1) _ s.decs (sinv_inc h.sinv hd)
+      (by intro _ _ hv; omega) (by intro t' i n _ hp; exact absurd hp (hno3 t' i n))
   · intro f j e
     cases e
     exact numOk_of_data h.sinv hd
@@ -98,7 +98,7 @@ theorem step_inc {c : Cfg} {s : Sys} (h : Inv c s) {t : Tid} (hh : holds (s.thre
 /-- a lookup that missed inserts a new object under the write lock and returns its number -/
 theorem step_insert {c : Cfg} (hinj : ∀ f g, c.pack f = c.pack g → f = g) {s : Sys} (h : Inv c s)
     {t : Tid} (hh : holds (s.threads t).pc = false) {f : HostId} (hp : probe s.store f = none) :
-    Inv c (finish { s with store := (insertAt c s.store f).1, incs := upd s.incs f (s.incs f + 1) }
+    Inv c (finish { s with store := (insertAt c s.store f).1 }
       t (some (f, (insertAt c s.store f).2))) := by
   obtain ⟨next0, ino, he, k1, k3, k4, k5, k6⟩ := insertAt_facts hinj h.sinv hp
   rw [he]
@@ -145,5 +145,274 @@ theorem step_insert {c : Cfg} (hinj : ∀ f g, c.pack f = c.pack g → f = g) {s
     constructor
     · intro _; simp [ins]
     · exact k5
+
+/-- `forget` takes the write lock -/
+theorem step_lock {c : Cfg} {s : Sys} (h : Inv c s) {t : Tid} (hf : s.lock = .free) (ino : Ino) (n : Nat) :
+    Inv c (setPc { s with lock := .w t } t (.F1 ino n)) := by
+  have nh := no_holder_of_free h hf
+  apply inv_setPcBut (P := fun _ _ => False)
+  · constructor
+    · exact h.sinv
+    · intro t' ne
+      constructor
+      · intro e; cases e; exact absurd rfl ne
+      · intro e; rw [nh t'] at e; cases e
+    · simp [holds]
+    · intro i o hd hc
+      obtain ⟨t0, n0, e⟩ := h.pos i o hd hc
+      have := nh t0; rw [e] at this; simp [holds] at this
+    · intro t' f o _; exact h.pcL1 t' f o
+    · intro t' f o k _; exact h.pcL2 t' f o k
+    · intro t' i n o k _; exact h.pcF2 t' i n o k
+    · intro t' i n o _; exact h.pcF3 t' i n o
+    · exact h.knownOk
+    · exact h.resOk
+  · intro _ _ hF; exact hF.elim
+  · intro f o e; cases e
+  · intro f o k e; cases e
+  · intro i n o k e; cases e
+  · intro i n o e; cases e
+
+/-- the lock holder `t` (not about to remove an entry) releases the lock -/
+theorem but_unlock {c : Cfg} {s : Sys} (h : Inv c s) {t : Tid} (hh : holds (s.threads t).pc = true)
+    (hn3 : ∀ i n o, (s.threads t).pc ≠ .F3 i n o) :
+    InvBut c { s with lock := .free } t false (fun _ _ => False) s.incs := by
+  constructor
+  · exact h.sinv
+  · intro t' ne
+    constructor
+    · intro e; cases e
+    · intro e; exact absurd (holder_unique h hh e) ne
+  · simp
+  · intro i o hd hc
+    obtain ⟨t0, n0, e⟩ := h.pos i o hd hc
+    have : holds (s.threads t0).pc = true := by rw [e]; rfl
+    have := holder_unique h hh this
+    subst this
+    exact absurd e (hn3 i n0 o)
+  · intro t' f o _; exact h.pcL1 t' f o
+  · intro t' f o k _; exact h.pcL2 t' f o k
+  · intro t' i n o k _; exact h.pcF2 t' i n o k
+  · intro t' i n o _; exact h.pcF3 t' i n o
+  · exact h.knownOk
+  · exact h.resOk
+
+/-- `forget`'s compare-exchange succeeds (count stays positive): unlock and return -/
+theorem step_dec_pos {c : Cfg} {s : Sys} (h : Inv c s) {t : Tid} {ino : Ino} {n : Nat} {o : ObjId}
+    {curr : Nat} (hpc : (s.threads t).pc = .F2 ino n o curr) (hc : s.store.cells o = curr)
+    (hnew : curr - n ≠ 0) :
+    Inv c (finish { s with store := { s.store with cells := upd s.store.cells o (curr - n) },
+                           decs := upd s.decs (s.store.objHost o)
+                             (s.decs (s.store.objHost o) + (curr - (curr - n))),
+                           lock := .free } t none) := by
+  have hd := h.pcF2 t ino n o curr hpc
+  have hh : holds (s.threads t).pc = true := by rw [hpc]; rfl
+  have hb := but_unlock h hh (by intro i n' o' e; rw [hpc] at e; cases e)
+  apply inv_finish
+  · have hs := sinv_dec h.sinv hd (curr - n) (by omega)
+    rw [hc] at hs
+    apply but_cells hb o (curr - n) _ _ hs
+    · intro _ _ hv; exact absurd hv hnew
+    · intro t' i n' ne hp
+      have : holds (s.threads t').pc = true := by rw [hp]; rfl
+      exact absurd (holder_unique h hh this) ne
+  · intro f j e; cases e
+
+/-- `forget`'s compare-exchange brings the count to zero: the entry is about to be removed -/
+theorem step_dec_zero {c : Cfg} {s : Sys} (h : Inv c s) {t : Tid} {ino : Ino} {n : Nat} {o : ObjId}
+    {curr : Nat} (hpc : (s.threads t).pc = .F2 ino n o curr) (hc : s.store.cells o = curr)
+    (hnew : curr - n = 0) :
+    Inv c (setPc { s with store := { s.store with cells := upd s.store.cells o (curr - n) },
+                          decs := upd s.decs (s.store.objHost o)
+                            (s.decs (s.store.objHost o) + (curr - (curr - n))) } t (.F3 ino n o)) := by
+  have hd := h.pcF2 t ino n o curr hpc
+  have hh : holds (s.threads t).pc = true := by rw [hpc]; rfl
+  have hb0 := but_of_inv h t
+  rw [hh] at hb0
+  have hb : InvBut c s t true (fun i o' => i = ino ∧ o' = o) s.incs := by
+    apply but_mono hb0
+    intro i o' ⟨n', e⟩; rw [hpc] at e; cases e
+  have hs := sinv_dec h.sinv hd (curr - n) (by omega)
+  rw [hc] at hs
+  apply inv_setPcBut (P := fun i o' => i = ino ∧ o' = o)
+  · apply but_cells hb o (curr - n) _ _ hs
+    · intro i hi _
+      have a := (h.sinv.dataObj i o hi).2.1
+      have b := (h.sinv.dataObj ino o hd).2.1
+      exact ⟨by rw [← a, b], rfl⟩
+    · intro _ _ _ _ _; exact hnew
+  · intro i o' ⟨a, b⟩; subst a; subst b; exact ⟨n, rfl⟩
+  · intro f o' e; cases e
+  · intro f o' k e; cases e
+  · intro i n' o' k e; cases e
+  · intro i n' o' e
+    cases e
+    exact ⟨hd, by simp [hnew]⟩
+
+/-- `forget` removes the entry whose count reached zero, unlocks and returns -/
+theorem step_remove {c : Cfg} {s : Sys} (h : Inv c s) {t : Tid} {ino : Ino} {n : Nat} {o : ObjId}
+    (hpc : (s.threads t).pc = .F3 ino n o) :
+    Inv c (finish { s with store := removeAt c s.store ino o, lock := .free } t none) := by
+  obtain ⟨hd, hz⟩ := h.pcF3 t ino n o hpc
+  have hh : holds (s.threads t).pc = true := by rw [hpc]; rfl
+  have hnum : ∀ g j, NumOk c s.store g j → NumOk c (removeAt c s.store ino o) g j := by
+    intro g j ⟨a, b⟩
+    refine ⟨fun hk => ?_, b⟩
+    have := a hk
+    simp [removeAt, hk, this]
+  have others : ∀ t', t' ≠ t → holds (s.threads t').pc = false := by
+    intro t' ne
+    cases e : holds (s.threads t').pc with
+    | false => rfl
+    | true => exact absurd (holder_unique h hh e) ne
+  apply inv_finish
+  · constructor
+    · exact sinv_remove h.sinv hd hz
+    · intro t' ne
+      constructor
+      · intro e; cases e
+      · intro e; rw [others t' ne] at e; cases e
+    · simp
+    · intro i o' hi hc
+      have hii : i ≠ ino := by intro e; subst e; simp [removeAt] at hi
+      have hi' : s.store.data i = some o' := by simpa [removeAt, hii] using hi
+      obtain ⟨t0, n0, e⟩ := h.pos i o' hi' hc
+      have : holds (s.threads t0).pc = true := by rw [e]; rfl
+      have := holder_unique h hh this
+      subst this
+      rw [hpc] at e; cases e; exact absurd rfl hii
+    · intro t' f o' _ hp; exact h.pcL1 t' f o' hp
+    · intro t' f o' k _ hp; exact h.pcL2 t' f o' k hp
+    · intro t' i n' o' k ne hp
+      have := others t' ne; rw [hp] at this; simp [holds] at this
+    · intro t' i n' o' ne hp
+      have := others t' ne; rw [hp] at this; simp [holds] at this
+    · intro g j hk; exact hnum g j (h.knownOk g j hk)
+    · intro t' g j hm; exact hnum g j (h.resOk t' g j hm)
+  · intro f j e; cases e
+
+/-- **every step preserves the invariant** -/
+theorem step_inv {c : Cfg} (hinj : ∀ f g, c.pack f = c.pack g → f = g) {s : Sys} (h : Inv c s)
+    (t : Tid) : Inv c (step c s t) := by
+  unfold step
+  by_cases hen : enabled s t = true
+  case neg =>
+    have : enabled s t = false := by simpa using hen
+    simp [this]; exact h
+  simp only [hen, Bool.not_true, Bool.false_eq_true, if_false]
+  split
+  · exact h
+  · -- LS
+    rename_i f hpc
+    exact inv_setPc h t _ (by rw [hpc]; rfl) (by intro i n o e; rw [hpc] at e; cases e)
+      (by intro _ _ e; cases e) (by intro _ _ _ e; cases e) (by intro _ _ _ _ e; cases e)
+      (by intro _ _ _ e; cases e)
+  · -- L0
+    rename_i f hpc
+    split
+    · exact inv_setPc h t _ (by rw [hpc]; rfl) (by intro i n o e; rw [hpc] at e; cases e)
+        (by intro _ _ e; cases e) (by intro _ _ _ e; cases e) (by intro _ _ _ _ e; cases e)
+        (by intro _ _ _ e; cases e)
+    · rename_i o hp
+      obtain ⟨i, _, hd, hf⟩ := probe_some h.sinv hp
+      exact inv_setPc h t _ (by rw [hpc]; rfl) (by intro i n o e; rw [hpc] at e; cases e)
+        (by intro f' o' e; cases e; exact ⟨(h.sinv.dataObj i _ hd).1, hf⟩)
+        (by intro _ _ _ e; cases e) (by intro _ _ _ _ e; cases e) (by intro _ _ _ e; cases e)
+  · -- L1
+    rename_i f o hpc
+    obtain ⟨a, b⟩ := h.pcL1 t f o hpc
+    split
+    · exact inv_setPc h t _ (by rw [hpc]; rfl) (by intro i n o e; rw [hpc] at e; cases e)
+        (by intro _ _ e; cases e) (by intro _ _ _ e; cases e) (by intro _ _ _ _ e; cases e)
+        (by intro _ _ _ e; cases e)
+    · rename_i hne
+      exact inv_setPc h t _ (by rw [hpc]; rfl) (by intro i n o e; rw [hpc] at e; cases e)
+        (by intro _ _ e; cases e)
+        (by intro f' o' k e; cases e; exact ⟨a, b, Nat.pos_of_ne_zero hne⟩)
+        (by intro _ _ _ _ e; cases e) (by intro _ _ _ e; cases e)
+  · -- L2
+    rename_i f o curr hpc
+    obtain ⟨a, b, k⟩ := h.pcL2 t f o curr hpc
+    split
+    · rename_i hc
+      obtain ⟨i, hd⟩ := in_data_of_pos h.sinv a (by omega)
+      have hh : holds (s.threads t).pc = false := by rw [hpc]; rfl
+      have := step_inc h hh hd (by
+        intro t' i' n' e
+        have := (h.pcF3 t' i' n' o e).2
+        omega)
+      subst b
+      rw [hc] at this
+      exact this
+    · exact inv_setPc h t _ (by rw [hpc]; rfl) (by intro i n o e; rw [hpc] at e; cases e)
+        (by intro _ _ e; cases e) (by intro _ _ _ e; cases e) (by intro _ _ _ _ e; cases e)
+        (by intro _ _ _ e; cases e)
+  · -- L3
+    rename_i f hpc
+    have hfree : s.lock = .free := by simpa [enabled, hpc] using hen
+    have hh : holds (s.threads t).pc = false := by rw [hpc]; rfl
+    split
+    · rename_i o hp
+      obtain ⟨i, _, hd, hf⟩ := probe_some h.sinv hp
+      have := step_inc h hh hd (by
+        intro t' i' n' e
+        have := no_holder_of_free h hfree t'
+        rw [e] at this; simp [holds] at this)
+      subst hf
+      exact this
+    · rename_i hp
+      have := step_insert hinj h hh hp
+      unfold insertAt at this
+      cases hA : allocate c s.store f with
+      | mk st' ino =>
+        simp only [hA] at this ⊢
+        exact this
+  · -- F0
+    rename_i ino n hpc
+    have hfree : s.lock = .free := by simpa [enabled, hpc] using hen
+    exact step_lock h hfree ino n
+  · -- F0f
+    rename_i f n hpc
+    have hfree : s.lock = .free := by simpa [enabled, hpc] using hen
+    exact step_lock h hfree _ n
+  · -- F1
+    rename_i ino n hpc
+    have hh : holds (s.threads t).pc = true := by rw [hpc]; rfl
+    have hn3 : ∀ i n o, (s.threads t).pc ≠ .F3 i n o := by intro i n o e; rw [hpc] at e; cases e
+    split
+    · exact inv_finish none (but_unlock h hh hn3) (by intro f j e; cases e)
+    · split
+      · exact inv_finish none (but_unlock h hh hn3) (by intro f j e; cases e)
+      · rename_i o hd
+        exact inv_setPc h t _ (by rw [hpc]; rfl) hn3
+          (by intro _ _ e; cases e) (by intro _ _ _ e; cases e)
+          (by intro i n' o' k e; cases e; exact hd) (by intro _ _ _ e; cases e)
+  · -- F2
+    rename_i ino n o curr hpc
+    split
+    · rename_i hc
+      split
+      · rename_i hz; exact step_dec_zero h hpc hc hz
+      · rename_i hz; exact step_dec_pos h hpc hc hz
+    · exact inv_setPc h t _ (by rw [hpc]; rfl) (by intro i n o e; rw [hpc] at e; cases e)
+        (by intro _ _ e; cases e) (by intro _ _ _ e; cases e)
+        (by intro i n' o' k e; cases e; exact h.pcF2 t _ _ _ _ hpc) (by intro _ _ _ e; cases e)
+  · -- F3
+    rename_i ino n o hpc
+    exact step_remove h hpc
+
+/-- the invariant holds in every state reachable by any schedule from any programs -/
+theorem run_inv {c : Cfg} (hinj : ∀ f g, c.pack f = c.pack g → f = g) {s : Sys} (h : Inv c s)
+    (sched : List Tid) : Inv c (run c s sched) := by
+  induction sched generalizing s with
+  | nil => exact h
+  | cons t r ih => exact ih (step_inv hinj h t)
+
+/-- the states reachable by some schedule from some programs -/
+def reach (c : Cfg) (progs : Tid → List Op) (sched : List Tid) : Sys := run c (Sys.init progs) sched
+
+theorem reach_inv {c : Cfg} (hinj : ∀ f g, c.pack f = c.pack g → f = g) (progs : Tid → List Op)
+    (sched : List Tid) : Inv c (reach c progs sched) :=
+  run_inv hinj (inv_init c progs) sched
 
 end Fbr.Conc
